@@ -72,8 +72,22 @@ def ds_history(rng, depth, cheap):
     return J(*bb, len(ads), *ads, len(ops), *ops)
 
 
+def clip_big(rng):
+    """a large fill_contiguous cut by a clip area: the slow path of Clipped::fill_contiguous with a large initial skip"""
+    W, H = rng.choice([240, 320, 480, 1023, 1024]), rng.choice([240, 320, 480, 1023, 1024])
+    bx, by = rng.randrange(-1024, 1025 - W) if W < 1024 else rng.choice([-1024, 0]), rng.randrange(-1024, 1025 - H) if H < 1024 else rng.choice([-1024, 0])
+    cx, cy = bx + rng.randrange(0, W), by + rng.randrange(0, H)
+    cw, ch = rng.randrange(1, W + 1), rng.randrange(1, H + 1)
+    ax, ay = max(-1024, bx - rng.randrange(0, 60)), max(-1024, by - rng.randrange(0, 60))
+    aw, ah = rng.choice([W, 1024, 1023, 480]), rng.choice([H, 1024, 257, 64])
+    ad = rng.choice(['C %d %d %d %d' % (cx, cy, cw, ch), 'T 0 0 C %d %d %d %d' % (cx, cy, cw, ch), 'C %d %d %d %d V' % (cx, cy, cw, ch)])
+    return J(bx, by, W, H, len([t for t in ad.split() if t in 'CTRV']), ad, 1, 'F', ax, ay, aw, ah, 'I', rng.randrange(1, 250))
+
+
 def cases(tier, rng):
     n = 700 if tier == 'quick' else 20000
+    for i in range(n // 3):
+        yield 'tok %d %s' % (1 if i % 4 else 0, clip_big(rng))
     for i in range(n):
         depth = rng.choice([0, 1, 2, 3, 4, 4, 6, 8])
         yield 'tok %d %s' % (i % 2, ds_history(rng, depth, cheap=(i % 4 != 0)))
